@@ -478,11 +478,136 @@ def classify(case, b, bad, overlap):
             f"where={','.join(where)}")
 
 
+BYTE_SPLITS = [[(0, 4), (4, 4)], [(0, 3), (3, 1), (4, 2), (6, 2)],
+               [(0, 1), (1, 7)], [(0, 2), (2, 5), (7, 1)], [(0, 8)],
+               [(0, 6), (6, 2)], [(0, 1), (1, 1), (2, 1), (3, 5)],
+               [(0, 5)], [(2, 3), (5, 3)]]
+PFM = ["B", "H", "I", "Q", "b", "h", "i", "q", ">H", ">I", "<H", ">Q", "!h"]
+
+
+def gen_packet_case(rng):
+    """packet variables: plain fields next to each other and bit fields
+    that share bytes; values written may be wider than the target"""
+    pos = 14 + rng.randint(0, 3)
+    vs = []
+    for k in range(rng.randint(2, 5)):
+        if rng.random() < 0.55:
+            for fld in rng.choice(BYTE_SPLITS):
+                vs.append([f"p{len(vs)}", pos, list(fld)])
+            pos += 1
+        else:
+            f = rng.choice(PFM)
+            vs.append([f"p{len(vs)}", pos, f])
+            pos += struct.calcsize(f[-1])
+        if rng.random() < 0.2:
+            pos += 1
+    writes = []
+    for _ in range(rng.randint(1, 4)):
+        t = rng.randrange(len(vs))
+        how = rng.choice(["const", "local", "local", "expr"])
+        val = rng.choice([rng.getrandbits(8), rng.getrandbits(16),
+                          rng.getrandbits(31), 0xff, 0xffff, 0x1ff, 1, 0,
+                          rng.getrandbits(4)])
+        writes.append([t, how, val])
+    return dict(packet=True, vars=vs, writes=writes, size=pos + 2,
+                initseed=rng.getrandbits(32))
+
+
+def pv_read(pkt, v):
+    name, pos, f = v
+    if isinstance(f, list):
+        return (pkt[pos] >> f[0]) & ((1 << f[1]) - 1)
+    return pkt[pos:pos + struct.calcsize(f[-1])]
+
+
+def check_packet_case(case, res):
+    from ebpfcat.xdp import PacketVar, XDPExitCode
+    vs, writes = case["vars"], case["writes"]
+    res.case(case, nontrivial=len(vs) >= 3)
+    res.count("packet_programs")
+
+    def program(self):
+        e = self
+        e.l0 = 0
+        for t, how, val in writes:
+            name = vs[t][0]
+            if how == "const":
+                setattr(e, name, val)
+            elif how == "local":
+                e.l0 = val
+                setattr(e, name, e.l0)
+            else:
+                e.l0 = val >> 1
+                setattr(e, name, e.l0 * 2 + (val & 1))
+        e.exit(XDPExitCode.TX)
+    ns = dict(license="GPL", minimumPacketSize=case["size"],
+              l0=LocalVar("Q"), program=program)
+    for name, pos, f in vs:
+        ns[name] = PacketVar(pos, tuple(f) if isinstance(f, list) else f)
+    r = random.Random(case["initseed"])
+    pkt = bytes(r.getrandbits(8) for _ in range(max(case["size"], 20) + 4))
+    with kern.session() as sess:
+        try:
+            e = type("VfPkt", (XDP,), ns)()
+            ld = prog.Loaded(e, sess)
+        except (AssembleError, OverflowError, struct.error):
+            res.count("packet_programs_refused_by_the_generator")
+            return
+        try:
+            ld.load()
+        except OSError:
+            # acceptance by the verifier is C05's subject
+            res.count("packet_programs_rejected_by_the_kernel")
+            return
+        try:
+            ret, out = ld.run_k(pkt)[:2]
+        finally:
+            ld.close()
+    res.count("packet_programs_run")
+    written = {t for t, _, _ in writes}
+    if len(out) != len(pkt):
+        res.violation("unexplained:packet-length", f"{len(pkt)} bytes in, "
+                      f"{len(out)} bytes out", case=case)
+        return
+    for i, v in enumerate(vs):
+        if i in written:
+            continue
+        res.count("unwritten_packet_variables_compared")
+        if isinstance(v[2], list):
+            res.count("unwritten_bit_fields_compared")
+        if pv_read(out, v) != pv_read(pkt, v):
+            tw = [(vs[t][0], vs[t][1], vs[t][2], how, hex(val))
+                  for t, how, val in writes]
+            res.violation(
+                "unexplained:packet-variable-changed",
+                f"packet variable {v[0]} (byte {v[1]}, {v[2]}) changed from "
+                f"{pv_read(pkt, v)} to {pv_read(out, v)}; written were {tw}",
+                case=case)
+            return
+    # bits that belong to no declared variable
+    owned = bytearray(len(pkt))
+    for name, pos, f in vs:
+        if isinstance(f, list):
+            owned[pos] |= ((1 << f[1]) - 1) << f[0]
+        else:
+            for k in range(struct.calcsize(f[-1])):
+                owned[pos + k] = 0xff
+    for k in range(len(pkt)):
+        if (out[k] ^ pkt[k]) & ~owned[k] & 0xff:
+            res.violation(
+                "unexplained:undeclared-packet-bits-changed",
+                f"byte {k}: {pkt[k]:#04x} -> {out[k]:#04x}, declared bits "
+                f"{owned[k]:#04x}", case=case)
+            return
+
+
 def run_shard(params):
     res = Result()
     rng = random.Random(params["seed"] * 100151 + params["shard"])
     for i in range(params["n"]):
         check_case(gen_case(rng), res, use_v=True)
+        if i % 4 == 0:
+            check_packet_case(gen_packet_case(rng), res)
     return res
 
 
@@ -490,11 +615,16 @@ def finalize(res, tier, seed):
     c = res.counters
     if not c.get("v_runs"):
         res.inconc("reference machine leg never ran")
+    if not c.get("unwritten_bit_fields_compared"):
+        res.inconc("packet leg: no bit field compared")
     if c.get("status:ok", 0) < 0.3 * c.get("programs", 1):
         res.inconc("fewer than 30% of the generated programs load")
 
 
 def replay(v):
     res = Result()
+    if v["case"].get("packet"):
+        check_packet_case(v["case"], res)
+        return res
     check_case(v["case"], res)
     return res
